@@ -40,3 +40,17 @@ def generate(names=None, verbose=False):
 
 def generate_all(verbose=False):
     return generate(None, verbose)
+
+
+@register('SimTables')
+def _sim_tables():
+    from translate import gen_sim_tables
+    from kyupy import sim
+    return gen_sim_tables.generate(sim)
+
+
+@register('LogicSimDispatch')
+def _dispatch():
+    from translate import gen_dispatch
+    from kyupy import sim, logic_sim
+    return gen_dispatch.generate(sim, logic_sim)[0]
